@@ -24,7 +24,7 @@ func init() {
 				"contain a slash. R3: the ReverseProxy is built with Rewrite (which strips Forwarded / X-Forwarded-*) and without " +
 				"Director, and Rewrite only calls SetURL(target) and sets Host and User-Agent.",
 			NotCovered: "string predicates other than segment equality; behaviour of net/http and httputil themselves (hop-by-hop header handling).",
-			Rules: map[string]string{"C19-R7": "nothing in the web service rewrites the peer address of a request (no store into http.Request.RemoteAddr): the address the proxy reports to the backend is the connecting peer's; R8: the reverse proxy talks to the backend through a plain *http.Transport, which relays redirects to the client instead of following them (an http.Client would contact other paths and hosts by itself)", "C19-R6": "the proxy never lets a client switch protocols: the Upgrade header of the inbound request is deleted before the request is handed to httputil.ReverseProxy (which would relay a 101 of the backend and then copy the connection's bytes both ways unseen, past the path gate and the header rewriting)", "C19-RC": "class rules (error chains, shadowed results, character classes, crossed arguments, pool constructors, array pools, loop completeness, loop-carried buffers, replacing setters, complete clones, Grow arithmetic, pooled-buffer escape, sorted searches, fresh decode targets, per-iteration objects, whole-message copies, codec guards) over the packages this property rests on", "C19-R5": "websvc.New: the linked-IP listeners' handler is the proxy gate itself, built for the configured target (nothing is routed around it)",
+			Rules: map[string]string{"C19-R9": "whatever the linked-IP proxy does not forward (and is not robots.txt) is answered by net/http.NotFound itself, a 404 made on the spot: ServeHTTP hands no such request to another handler (the rest of the web service would answer redirects, static content and the DNS check on the linked-IP addresses)", "C19-R7": "nothing in the web service rewrites the peer address of a request (no store into http.Request.RemoteAddr): the address the proxy reports to the backend is the connecting peer's; R8: the reverse proxy talks to the backend through a plain *http.Transport, which relays redirects to the client instead of following them (an http.Client would contact other paths and hosts by itself)", "C19-R6": "the proxy never lets a client switch protocols: the Upgrade header of the inbound request is deleted before the request is handed to httputil.ReverseProxy (which would relay a 101 of the backend and then copy the connection's bytes both ways unseen, past the path gate and the header rewriting)", "C19-RC": "class rules (error chains, shadowed results, character classes, crossed arguments, pool constructors, array pools, loop completeness, loop-carried buffers, replacing setters, complete clones, Grow arithmetic, pooled-buffer escape, sorted searches, fresh decode targets, per-iteration objects, whole-message copies, codec guards) over the packages this property rests on", "C19-R5": "websvc.New: the linked-IP listeners' handler is the proxy gate itself, built for the configured target (nothing is routed around it)",
 				"C19-R1": "ServeHTTP gate and header effects", "C19-R2": "shouldProxy decision table incl. dot segments and split limit",
 				"C19-R3": "ReverseProxy literal: Rewrite, not Director; Rewrite's effects",
 				"C19-R4": "the client-IP header is (re-)set on the outgoing request inside Rewrite, i.e. after httputil has removed the hop-by-hop headers that the client's Connection header names",
@@ -33,6 +33,9 @@ func init() {
 }
 
 func runC19(c *an.Ctx) {
+	// ---- R9: unproxied requests get a 404 made in place
+	c.Floor("C19-R9", 1)
+	c19LocalNotFound(c, "C19-R9")
 	// ---- R7: the peer address is never rewritten; R8: the proxy's transport follows no redirects
 	c19PeerAddrUntouched(c, "C19-R7")
 	c.Floor("C19-R8", 1)
@@ -511,4 +514,33 @@ func c19PlainTransport(c *an.Ctx, rule string) {
 	if n == 0 {
 		c.Und(rule, "ReverseProxy.Transport", token.NoPos, "no store into httputil.ReverseProxy.Transport found in websvc")
 	}
+}
+
+// c19LocalNotFound: in linkedIPProxy.ServeHTTP the only handler a request is
+// handed to is the reverse proxy; everything else ends in http.NotFound (or the
+// robots helper).  An invoke of ServeHTTP on any other value forwards unproxied
+// requests to code that may answer them.
+func c19LocalNotFound(c *an.Ctx, rule string) {
+	k := "websvc.(*linkedIPProxy).ServeHTTP"
+	fn := c.Prog.Fn(k)
+	key := k + " answers unproxied requests with its own 404"
+	if fn == nil {
+		c.Und(rule, key, token.NoPos, "anchor not found")
+		return
+	}
+	c.Analysed(k)
+	notFound, bad := false, ""
+	for _, call := range an.Calls(fn) {
+		n := an.CalleeName(call)
+		switch {
+		case n == "net/http.NotFound":
+			notFound = true
+		case call.Common().IsInvoke() && call.Common().Method.Name() == "ServeHTTP":
+			bad = "a request is handed to " + call.Common().Value.Type().String() + " at " + c.Pos(call.Pos())
+		case strings.HasSuffix(n, ").ServeHTTP") && !strings.HasSuffix(n, "httputil.ReverseProxy).ServeHTTP"):
+			bad = "a request is handed to " + an.Short(n) + " at " + c.Pos(call.Pos())
+		}
+	}
+	c.Check(notFound && bad == "", rule, key, fn.Pos(), "http.NotFound is the only answer to unproxied requests",
+		bad+": requests that are not the four API shapes are no longer answered with a plain 404 on the linked-IP addresses")
 }
